@@ -54,8 +54,8 @@ REVERTS = [
      "                            stop=ic['start'] + size * ic['step'],\n",
      "                            stop=ic['start'] + size * ic['step'] + 1,\n"),
     ('revert-F12-constant-cast-to-partition-type', ['C05', 'C13'], 'fastparquet/api.py',
-     "                if not _number_vs_numeric(val, partition_meta.get(cat)):\n                    val = val_to_num(val, meta=partition_meta.get(cat))\n",
-     "                val = val_to_num(val, meta=partition_meta.get(cat))\n"),
+     "                if not _number_vs_numeric(val, partition_meta.get(cat)):\n",
+     "                if cat:\n"),
     ('revert-F13-int96-raw-view', ['C01'], 'fastparquet/writer.py',
      "        stamps = data.values.astype('M8[ns]').view('int64')\n", "        stamps = data.values.view('int64')\n"),
     ('revert-F14-nat-not-restored', ['C01'], 'fastparquet/writer.py',
@@ -71,6 +71,53 @@ REVERTS = [
      "                    io_obj, daph.definition_level_encoding,\n", "                    io_obj, parquet_thrift.Encoding.RLE,\n"),
     ('revert-F19-bare-loop-over-absent-key-values', ['C10', 'C07'], 'fastparquet/writer.py',
      "        for kv in obj.key_value_metadata or []:\n", "        for kv in obj.key_value_metadata:\n"),
+    ('revert-F20-rle-bool-prefix-not-skipped', ['C03'], 'fastparquet/core.py',
+     "                bit_width = 1\n                io_obj.seek(4, 1)\n", "                bit_width = 1\n"),
+    ('revert-F21-decimal-object-array', ['C03'], 'fastparquet/converted_types.py',
+     """            if data.dtype == "O":
+                # variable-length byte strings arrive as bytes objects
+                return np.array([
+                    int.from_bytes(d, byteorder='big', signed=True) * scale_factor
+                    for d in data
+                ])
+""", ""),
+    ('revert-F22-missing-null-count-is-zero', ['C03', 'C17'], 'fastparquet/api.py',
+     "                        if st.get(3) is None or st.get(3):\n", "                        if st.get(3):\n"),
+    ('revert-F23-numpy-type-taken-blindly', ['C03', 'C17'], 'fastparquet/api.py',
+     """                        nt = md.get(col, {}).get("numpy_type")
+                        if "datetime64" in str(nt):
+                            dt = nt
+""", """                        dt = md[col]["numpy_type"]
+"""),
+    ('revert-F24-delta-in-place-any-item-size', ['C03'], 'fastparquet/core.py',
+     '        if converts_inplace(se) and see and assign.dtype.kind not in "Mm":\n', '        if converts_inplace(se):\n'),
+    ('revert-F25-upper-on-dict-codec', ['C02', 'C01', 'C07'], 'fastparquet/writer.py',
+     "                if compression:\n                    # (a codec name or a dict with type and args, as for the\n",
+     "                if compression and compression.upper() != \"UNCOMPRESSED\":\n                    # (a codec name or a dict with type and args, as for the\n"),
+    ('revert-F26-schema-element-by-dotted-name', ['C05', 'C13'], 'fastparquet/api.py',
+     "            se = schema.schema_element(column.meta_data.path_in_schema)\n", "            se = schema.schema_element(name)\n"),
+    ('revert-F27-list-constant-cast-as-scalar', ['C05', 'C13'], 'fastparquet/api.py',
+     """                    if isinstance(val, (tuple, list, set)):
+                        # 'in' / 'not in': each candidate is typed on its own
+                        val = [val_to_num(x, meta=partition_meta.get(cat))
+                               for x in val]
+                    else:
+                        val = val_to_num(val, meta=partition_meta.get(cat))
+""", """                    val = val_to_num(val, meta=partition_meta.get(cat))
+"""),
+    ('revert-F28-handles-located-by-fn', ['C14'], 'fastparquet/util.py',
+     """        file_list = [pf.fn if pf.file_scheme in ['simple', 'empty']
+                     else pf.basepath for pf in pfs]
+""", """        file_list = [pf.fn for pf in pfs]
+"""),
+    ('revert-F29-footers-looked-up-by-caller-spelling', ['C14'], 'fastparquet/util.py',
+     """                pieces = [(fn, pieces[fn] if fn in pieces
+                           else pieces[fs._strip_protocol(fn)])
+                          for fn in file_list[1:]]
+""", """                pieces = [(fn, pieces[fn]) for fn in file_list[1:]]
+"""),
+    ('revert-F30-rename-through-self-fs', ['C09'], 'fastparquet/api.py',
+     "            rename = self.fs.rename if hasattr(self, 'fs') else os.rename\n", "            rename = self.fs.rename\n"),
 ]
 
 # functions whose twins are run per property (module, qualname)
